@@ -901,6 +901,54 @@ def main(ctx):
     ctx.lattice("copies", copy_cosmos, one_copy, expand=expand_copy,
                 bounds=dict(routes=COPY_ROUTES, cosmologies=len(copy_cosmos), battery=[repr(b) for b in BATTERY_LONG]))
 
+    # containers holding SEVERAL cosmologies, copied in one go (a parameter grid for numerical derivatives: the
+    # fiducial model plus members that differ in the 8th digit of one parameter, the same object twice): every member
+    # of the copy must report ITS parameters and distances, the same object twice must stay one object
+    def one_group(case, rec):
+        base, param, steps, route = case
+        kws = []
+        for st in steps:
+            kw = dict(base)
+            kw[param] = kw[param] + st
+            kws.append(kw)
+        objs = [Cosmo(**kw) for kw in kws]
+        group = objs + [objs[0]]
+        ref = [(getters(o), battery(o, BATTERY)) for o in objs]
+        try:
+            if route == "deepcopy-list":
+                cp = copy.deepcopy(group)
+            elif route == "deepcopy-dict":
+                d = copy.deepcopy({i: o for i, o in enumerate(group)})
+                cp = [d[i] for i in range(len(group))]
+            elif route == "deepcopy-nested":
+                cp = copy.deepcopy([group[:1], tuple(group[1:])])
+                cp = list(cp[0]) + list(cp[1])
+            elif route == "pickle-list":
+                cp = pickle.loads(pickle.dumps(group))
+            else:
+                cp = copy.copy(group)
+                cp = [copy.copy(o) for o in cp[:-1]] + [cp[-1]]
+        except Exception as e:
+            return rec.fail(case, "%s raised %s: %s" % (route, type(e).__name__, e))
+        for i, (o, (p0, b0)) in enumerate(zip(cp[:len(objs)], ref)):
+            if getters(o) != p0:
+                return rec.fail(case, "%s: member %d of the copy reports %r, the original %r (members differ by %r in %s)" % (route, i, getters(o), p0, steps, param))
+            if battery(o, BATTERY) != b0:
+                return rec.fail(case, "%s: member %d of the copy gives other distances than its original" % (route, i))
+            if route != "copy.copy-each" and o is objs[i]:
+                return rec.fail(case, "%s: member %d of the copy is the original object" % (route, i))
+        if route.startswith("deepcopy") or route == "pickle-list":
+            if cp[-1] is not cp[0]:
+                return rec.fail(case, "%s: the object contained twice became two objects" % route)
+        rec.ok(case, outcome="group:%s" % route, nontrivial=True, calls=len(objs) * 12)
+
+    GBASE = [dict(omega_m=0.3, omega_l=0.6, flat=False, H0=70.0), dict(omega_m=0.25, H0=64.0), dict(omega_m=0.3, omega_k=-0.1, H0=100.0)]
+    gunits = [(tuple(sorted(b.items())), prm, steps, route) for b in GBASE for prm in ("omega_m", "H0") + (("omega_l",) if "omega_l" in b else ())
+              for steps in ((0.0, 1e-7, -1e-7), (0.0, 1e-9), (0.0, 1e-12, 2e-12), (0.0, 0.0))
+              for route in ("deepcopy-list", "deepcopy-dict", "deepcopy-nested", "pickle-list", "copy.copy-each")]
+    ctx.lattice("copies-of-groups", gunits, one_group, bounds=dict(steps=["0,+-1e-7", "0,1e-9", "0,1e-12,2e-12", "0,0 (equal members)"],
+                                                                   routes=["deepcopy-list", "deepcopy-dict", "deepcopy-nested", "pickle-list", "copy.copy-each"]))
+
     # --------------------------------------------------------------- histories
     A3 = (0.1, 0.5, 2.0)
     OPS = []
